@@ -111,3 +111,66 @@ func init() {
 			}
 		}})
 }
+
+// c03-retry: a first attempt that fails (a transient read error of an attachment source, a server that refuses
+// or hangs up) and a second Send of the SAME Msg values on a new connection: the retry must commit the complete
+// messages.
+func init() {
+	register(Suite{Name: "c03-retry", Property: "C03",
+		Rule: "generated batches sent twice by one Client - a first attempt against a server that behaves or fails at a random position, with attachments from read-seekers whose FIRST pass breaks off after n bytes (a transient read error), then the same Msg values again on a new connection: what the second server committed at end-of-data is compared with the complete renderings, IsDelivered / HasSendError with the replies; second run compared with the session model; distinct by scenario",
+		Run: func(c *Ctx) {
+			n := c.N(300, 15000)
+			for i := 0; i < n; i++ {
+				sc, flaky := retryScenario(c, c.Rng)
+				run := runAndCompare(c, sc, fmt.Sprintf("flaky=%d:faults=%d", flaky, len(sc.Script)))
+				if run == nil || run.Panic != nil {
+					continue
+				}
+				oracleCommit(c, sc, run)
+			}
+		}})
+}
+
+// retryScenario: a batch, a first attempt that delivers nothing (451 at every end-of-data; flaky attachment
+// sources break off), and the retry of the same Msg values, which is what the scenario describes
+func retryScenario(c *Ctx, r *Rng) (*SmtpScenario, int) {
+	sc := genScenario(r, 3, 3)
+	sc.TLS = ""
+	sc.Script = map[int]SrvAction{}
+	flaky := 0
+	for mi := range sc.Msgs {
+		m := &sc.Msgs[mi]
+		m.RenderFail, m.FailEarly, m.FailVia, m.Signed = false, false, "", false
+		if r.Chance(60) {
+			m.FlakyAttach = 1 + r.Intn(3000)
+			flaky++
+		}
+	}
+	warm := &SmtpScenario{Caps: sc.Caps, Script: map[int]SrvAction{}}
+	if r.Chance(30) {
+		warm.Script[r.Intn(8)] = genFailAction(r)
+	}
+	sc.Warmup = warm
+	sc.RetryOfFailed = true
+	if r.Chance(25) {
+		npos, _ := positionsOf(sc)
+		sc.Script[r.Intn(npos+1)] = genFailAction(r)
+	}
+	return sc, flaky
+}
+
+func init() {
+	register(Suite{Name: "c20-retry", Property: "C20",
+		Rule: "the scenarios of c03-retry (a first attempt in which every end-of-data is refused with 451 and flaky attachment sources break off; then the same Msg values sent again by the same Client): SendError of every message after the RETRY compared with the replies of the retry's server - a message that went through now carries no error, whatever the first attempt left - and with the session model",
+		Run: func(c *Ctx) {
+			n := c.N(300, 15000)
+			for i := 0; i < n; i++ {
+				sc, flaky := retryScenario(c, c.Rng)
+				run := runAndCompare(c, sc, fmt.Sprintf("flaky=%d:faults=%d", flaky, len(sc.Script)))
+				if run == nil || run.Panic != nil {
+					continue
+				}
+				oracleSendError(c, sc, run)
+			}
+		}})
+}
